@@ -247,11 +247,17 @@ impl<M: GuestAddressSpace> VringState<M> {
 
     /// Read event from the kick `EventFd`.
     fn read_kick(&self) -> io::Result<bool> {
+        // A disabled ring is not processed, so its kick must not be consumed either: it has to
+        // stay pending until the ring is enabled again, otherwise the notification is lost.
+        if !self.enabled {
+            return Ok(false);
+        }
+
         if let Some(kick) = &self.kick {
             kick.consume()?;
         }
 
-        Ok(self.enabled)
+        Ok(true)
     }
 
     /// Set `EventFd` for call.
